@@ -168,7 +168,6 @@ func TestFloat32RangeContract(t *testing.T) {
 	}
 }
 
-
 // floor / ceil / round models against package math on a boundary list (evaluated through the term evaluator)
 func TestRoundingModels(t *testing.T) {
 	xs := []float64{0, -0.0, 0.5, -0.5, 0.49999999999999994, -0.49999999999999994, 1.5, 2.5, -2.5, 28.999999999999996, 1e15 + 0.5, 4503599627370496.5, 4503599627370497, -4503599627370495.5, 1e300, -1e300, math.Inf(1), math.Inf(-1), 5e-324, 0.9999999999999999, -1.0000000000000002}
